@@ -76,9 +76,37 @@ fn directed_softfork(ctx: &mut Ctx) {
     }
 }
 
+/// deep (non-tail) recursion: tens of thousands of nested evaluations, pending operators and open reclamation
+/// checkpoints, at budgets that end the run at various depths
+fn directed_deep_recursion(ctx: &mut Ctx) {
+    let depths: &[u64] = if ctx.miri { &[30] } else if ctx.light { &[2500] } else { &[1000, 5460, 5470, 9000, 20000] };
+    for (k, n) in depths.iter().enumerate() {
+        let cid = crate::report::DIRECTED | (1 << 40) | k as u64;
+        if !ctx.want(cid) {
+            continue;
+        }
+        let mut f = Forest::new();
+        let (prog, env) = crate::mon::c04::deep_recursion(&mut f, *n);
+        for fl in [ClvmFlags::empty(), ClvmFlags::ENABLE_GC, ClvmFlags::ENABLE_GC | clvmr::chia_dialect::MEMPOOL_MODE | ClvmFlags::NEW_COST_MODEL] {
+            for budget in [0u64, 1_000_000, 11_000_000] {
+                let Some(o) = run_case(&f, prog, env, fl, budget, k as u64, 0) else { continue };
+                ctx.eval();
+                ctx.count("directed_deep_recursion_cases");
+                if let Some(sig) = bad(&o.res) {
+                    let mut j = json!({"program": "count(n) = n ? count(n-1) + 1 : 0", "n": n, "budget": budget});
+                    j["flags"] = flags_json(fl);
+                    j["outcome"] = o.res.to_json();
+                    ctx.violation(sig, j);
+                }
+            }
+        }
+    }
+}
+
 pub fn run(ctx: &mut Ctx) {
     let miri = ctx.miri;
     directed_softfork(ctx);
+    directed_deep_recursion(ctx);
     let n = ctx.n(250_000, 40_000_000);
     random_cases!(ctx, n, |r, _i| {
         let flags = gen_flags(&mut r, ClvmFlags::all());
